@@ -8,7 +8,65 @@ PINB = 'cardutil/pinblock.py'
 KEYF = 'cardutil/key.py'
 VBSMODS = ['contracts.mciipm_block', 'contracts.mciipm_vbs']
 
+ISO = 'cardutil/iso8583.py'
+ISOMODS = ['contracts.bitarray', 'contracts.iso_field', 'contracts.iso_pds', 'contracts.iso_msg']
+
 PROPS = {
+    'C01': {
+        'modules': ISOMODS,
+        'canaries': [
+            (ISO, "message_data[message_pointer:],", "message_data[message_pointer:message_pointer + 999],", "decoder slice capped at 999", "dumps+loads[lllvar"),
+            (ISO, "field_data = int(field_data)", "field_data = int(field_data) % 100000000", "typed value truncated on decode", "field-round-trip[FIXED,long,width=12"),
+            (ISO, "output += format(field_value[:field_length], '<' + str(field_length)).encode(encoding)", "output += format(field_value[:field_length], '>' + str(field_length)).encode(encoding)", "fixed text right-justified", "field-round-trip[FIXED,text"),
+        ],
+        'assumptions': ["single-byte codec E is abstract: ENC/DEC uninterpreted with 0<=ENC<=255, ENCODABLE(c) => DECODABLE(ENC(c)) and DEC(ENC(c)) = c, digits/space/a-f/A-F encodable (checked exhaustively for latin_1, cp500, cp037 by the native stand-in)",
+                        "int(str) on ASCII digits is the decimal value, otherwise ValueError or ANY integer; format(v,'0Wd') for 0<=v<10^W is the W zero-padded digits; strptime(format(dt,fmt),fmt) = dt for REPRESENTABLE dt (uninterpreted predicate: the two-digit-year window is only exercised by the native stand-in)",
+                        "message level: element SUBSETS are a fixed family (listed in contracts/iso_msg.py: text+typed, far-apart, var-with-max, lllvar+icc, fixed+int+llvar, MTI only, PDS sets) with all values, lengths, MTI digits, codec and bitmap rendering symbolic; arbitrary subsets follow by the loop invariant over bits 2..127, which is argued (field contracts are for every configuration shape) but not mechanised",
+                        "decimal fields: exception behaviour only (no round trip claimed)"],
+    },
+    'C02': {
+        'modules': ISOMODS,
+        'canaries': [
+            (ISO, "if field_length >= 10 ** length_size:", "if field_length > 10 ** length_size:", "100-character LLVAR value emitted", "_field_to_iso8583[LLVAR,text"),
+            (ISO, "bitmap_values[bit - 1] = True", "bitmap_values[bit] = True", "bitmap bit shifted by one", "dumps+loads[far-apart,binary"),
+            (ISO, "bitmap = binascii.hexlify(binary_bitmap)", "bitmap = binascii.hexlify(binary_bitmap).upper()", "hex bitmap in upper case", "dumps+loads[far-apart,hex"),
+            (ISO, "output += field_value[:field_length]", "output += field_value[:field_length].upper()", "binary data altered", "_field_to_iso8583[LLLVAR,binary"),
+        ],
+        'assumptions': ["the `independent reference codec` of the statement is, in this family, the spec functions in contracts/iso_field.py / iso_msg.py (spec_field, spec_bitmap), written from the statement; the native stand-in carries a second, executable reference codec",
+                        "same codec / int / format assumptions and the same fixed family of element subsets as C01"],
+    },
+    'C07': {
+        'modules': ISOMODS + ['contracts.mciipm_block', 'contracts.mciipm_vbs'],
+        'canaries': [
+            (ISO, "        if pds_field_length < 0:  # would move the pointer backwards and never finish\n            raise Iso8583DataError(f'Invalid length for PDS{pds_field_tag}')\n", "", "negative PDS sub-length accepted (hang)", "_pds_to_dict/any"),
+            (ISO, "except (struct.error, binascii.Error) as ex:", "except struct.error as ex:", "binascii.Error escapes loads", "loads-framing[fixed-only"),
+            (ISO, "        except struct.error as ex:\n            raise Iso8583DataError(f'Unable to process DE{bit} ICC data',", "        except KeyError as ex:\n            raise Iso8583DataError(f'Unable to process DE{bit} ICC data',", "struct.error escapes from ICC data", "_iso8583_to_field[LLLVAR,ICC"),
+        ],
+        'assumptions': ["exception sets of the library models are what makes this meaningful: int -> ValueError, decode -> UnicodeDecodeError, struct.unpack -> struct.error, unhexlify -> binascii.Error, strptime -> ValueError, Decimal -> InvalidOperation, s[i] -> IndexError, d[k] -> KeyError; re.match is assumed to terminate; MemoryError / RecursionError / wall-clock `promptly` are out of reach",
+                        "loads on arbitrary bytes is decided per element shape (every configuration shape of the packaged table, any bytes of any length) and, at message level, for a fixed family of bitmaps with arbitrary data; hex-bitmap decoding for arbitrary 32 bytes",
+                        "command-line tools: cli_run is not executed symbolically (argparse / open); they catch exactly MciIpmDataError, which is what IpmReader.__next__ is proved to raise"],
+    },
+    'C08': {
+        'modules': ISOMODS,
+        'canaries': [
+            (ISO, "        if field_length < 0:\n            raise Iso8583DataError(f'Invalid field length DE{bit}', binary_context_data=message_data)\n", "", "negative length prefix accepted", "_iso8583_to_field[LLVAR,text"),
+            (ISO, "    if message_pointer != len(message_data):", "    if message_pointer > len(message_data):", "trailing bytes ignored", "loads-framing[fixed-only"),
+            (ISO, "    field_data = message_data[length_size:length_size + field_length]", "    field_data = message_data[length_size:length_size + field_length + 1]", "element reads one byte too many", "_iso8583_to_field[LLVAR,text"),
+        ],
+        'assumptions': ["numerals that are not plain ASCII digits: int() may return any integer; the contract still requires a non-negative length and exact framing for whatever is returned",
+                        "message level for a fixed family of bitmaps ({2,3,72}, {31,33}, {3,14,24}) with arbitrary bytes after the bitmap; acceptance of every well-framed message is the round-trip units of C01"],
+    },
+    'C12': {
+        'modules': ISOMODS,
+        'canaries': [
+            (ISO, "if len(output + add_output) > 999:", "if len(output + add_output) > 1000:", "carrier may reach 1000 characters", "pds-pack-unpack[2"),
+            (ISO, "if len(output + add_output) > 999:", "if len(output) + length > 999:", "header of the added sub-element not counted", "pds-pack-unpack[2"),
+            (ISO, "    while field_pointer < len(field_data):\n        # get the pds tag id", "    while field_pointer + 7 < len(field_data):\n        # get the pds tag id", "trailing empty sub-element dropped", "_pds_to_dict/item-tiled"),
+            (ISO, "field_pointer += 7+pds_field_length", "field_pointer += 8+pds_field_length", "PDS walker skips a character", "_pds_to_dict/item-tiled"),
+        ],
+        'assumptions': ["_pds_to_dict: any number of sub-elements (loop invariant over an item-tiled carrier); _pds_to_de: 1..3 sub-elements with symbolic value lengths 0..992 (every carrier-boundary position), not an arbitrary count; placement into DE48/DE62 through dumps for two sub-elements",
+                        "sorted() on 'PDS'+4-digit keys is ascending tag order (lexicographic = numeric for equal-length digit strings)"],
+    },
     'C17': {
         'modules': ['contracts.bitarray', 'contracts.mciipm_info'],
         'canaries': [
@@ -112,10 +170,11 @@ PROPS = {
                         "SIGMA (finite sum) is characterised by its unfolding equations; induction over the length is written out as base/step obligations in contracts/lemmas.py"],
     },
     'C16': {
-        'modules': ['contracts.card'],
+        'modules': ['contracts.card', 'contracts.iso_field'],
         'canaries': [
             (CARD, "card_number[0:6] + mask_char", "card_number[0:7] + mask_char", "mask keeps 7 leading characters"),
             (CARD, "(len(card_number)-10)", "(len(card_number)-11)", "mask one short"),
+            (ISO, "    if field_processor == 'PAN':\n        field_data = mask(field_data)", "    if field_processor == 'PAN' and len(field_data) <= 19:\n        field_data = mask(field_data)", "long PAN values returned in clear", "_iso8583_to_field[LLLVAR,PAN"),
         ],
         'assumptions': [],
     },
